@@ -264,8 +264,8 @@ PROPS["C07"] = {
     "trusted_base": ["pty harness (quiescence detection through /proc, one key press at a time) and diff",
                      "scripted helpers are functions of the text (same table on both sides)",
                      "ed07s: the row store handed to the editor model is computed by the C20 model of SQLiteHistory (add = INSERT OR REPLACE under the unique index, set_max_len) from the request; SQLite itself and the rusqlite bindings are external"],
-    "unproved": ["C07_rows_simulation_statement"],
-    "level_text": "Lean theorems about the C07 navigation spec machine (up shows the stored entry verbatim with the cursor at its end; stops at the oldest; leaving and coming back restores the in-progress line and cursor exactly), the editor model diffed against the real editor on a pty, and the spec machine run as an oracle over the implementation's callbacks (entries in order, saved line restored char for char with its cursor, first/last, line-wise Up/Down first, stored history unchanged). Proved about the editor model: from a navigable state (growable buffers, cursors inside their texts, index within the history) editHistoryNext / editHistory never panic and refine the declarative steps navPrev / navNext / navFirst / navLast on (line, cursor, index, saved line) (C07_prev_refines, C07_next_refines, C07_model_prev); first/last equal the iterated single steps (C07_first_is_iterated_prev, C07_last_is_iterated_next); the saved line is written only when leaving the in-progress position (C07_saved_once); over arbitrary sequences of steps mixed with edits of recalled entries, returning to the end restores the in-progress line and cursor exactly (C07_return_restores). Back ends: the model reads the history through len()/get(index, direction) (histLen / histGetDir); the refinement theorems are proved for ANY back end whose answers stay below len (C07_prev_refines_store, C07_next_refines_store, C07_first_refines_store, C07_last_refines_store: Up takes the nearest entry at or before idx-1 and ITS index, Down the nearest at or after idx+1), and specialised to the default back end (index = position) they give the statements above; both back ends satisfy the side condition (C07_storeOK_list, C07_storeOK_rows). The editor on Editor<_, SQLiteHistory> with holes in the row ids is diffed against the model and judged by the same oracle (target ed07s).",
+    "unproved": [],
+    "level_text": "Lean theorems about the C07 navigation spec machine (up shows the stored entry verbatim with the cursor at its end; stops at the oldest; leaving and coming back restores the in-progress line and cursor exactly), the editor model diffed against the real editor on a pty, and the spec machine run as an oracle over the implementation's callbacks (entries in order, saved line restored char for char with its cursor, first/last, line-wise Up/Down first, stored history unchanged). Proved about the editor model: from a navigable state (growable buffers, cursors inside their texts, index within the history) editHistoryNext / editHistory never panic and refine the declarative steps navPrev / navNext / navFirst / navLast on (line, cursor, index, saved line) (C07_prev_refines, C07_next_refines, C07_model_prev); first/last equal the iterated single steps (C07_first_is_iterated_prev, C07_last_is_iterated_next); the saved line is written only when leaving the in-progress position (C07_saved_once); over arbitrary sequences of steps mixed with edits of recalled entries, returning to the end restores the in-progress line and cursor exactly (C07_return_restores). Back ends: the model reads the history through len()/get(index, direction) (histLen / histGetDir); the refinement theorems are proved for ANY back end whose answers stay below len (C07_prev_refines_store, C07_next_refines_store, C07_first_refines_store, C07_last_refines_store: Up takes the nearest entry at or before idx-1 and ITS index, Down the nearest at or after idx+1), and specialised to the default back end (index = position) they give the statements above; both back ends satisfy the side condition (C07_storeOK_list, C07_storeOK_rows). Holes in the SQLite row ids are invisible (C07_rows_simulation, proved for every well-formed non-empty row store: one strictly increasing index per entry, all below len, len = last index + 1): seen through positions among the EXISTING rows (absNav) each of the four store-machine steps is the step of the hole-free machine over the entries and stays on len or an existing row (helper lemmas in Lemmas/RowStore.lean read find? / filter-getLast? over the sorted rows as positional look-ups); composed with the refinement it gives the editor model over SQLite history directly (C07_prev_refines_rows, C07_next_refines_rows, C07_first_refines_rows, C07_last_refines_rows), and the hole-free theorems are transported: k Ups from the line being typed show the k-th newest existing entry with its row's index and the typed line saved (C07_prev_iterate, C07_prev_iterate_rows, and for k PreviousHistory commands of the editor model C07_prev_iterate_rows_editor), any sequence of steps and edits of recalled entries restores the typed line and cursor on return (C07_return_restores_rows), first / last equal as many Ups / Downs as there are existing rows below / at-or-above the current one (C07_first_is_iterated_prev_rows, C07_last_is_iterated_next_rows); decide counter-examples show that the len = last index + 1 and non-empty hypotheses are needed. The editor on Editor<_, SQLiteHistory> with holes in the row ids is diffed against the model and judged by the same oracle (target ed07s).",
     "level_note": 'Trusted: Lean kernel; pty harness; default (FileHistory) and SQLite (in-memory database) back ends.',
     "assumptions": ["keyseq_timeout = None (default)"],
 }
